@@ -1986,6 +1986,7 @@ def __multi_arity_dispatch_fn(  # pylint: disable=too-many-arguments,too-many-lo
     max_fixed_arity: int,
     meta_node: MetaNode | None = None,
     is_async: bool = False,
+    dispatch_map_prefix: str | None = None,
 ) -> GeneratedPyAST[ast.expr]:
     """Return the Python AST nodes for a argument-length dispatch function
     for multi-arity functions.
@@ -2000,7 +2001,7 @@ def __multi_arity_dispatch_fn(  # pylint: disable=too-many-arguments,too-many-lo
             return default(*args)
         raise RuntimeError
     """
-    dispatch_map_name = f"{name}_dispatch_map"
+    dispatch_map_name = f"{dispatch_map_prefix or name}_dispatch_map"
 
     dispatch_keys: list[ast.expr | None] = []
     dispatch_vals: list[ast.expr] = []
@@ -2189,6 +2190,12 @@ def __multi_arity_fn_to_py_ast(  # pylint: disable=too-many-locals
     lisp_fn_name = node.local.name if node.local is not None else None
     py_fn_name = __fn_name(ctx, lisp_fn_name) if def_name is None else munge(def_name)
 
+    # The arity functions and the dispatch map are module level names which the dispatch
+    # function looks up whenever it is called. For a `def`ed function they must not be
+    # derived from the name of the Var alone, or defining that Var again would change
+    # the function it held before (which may still be in use under another name).
+    arity_prefix = py_fn_name if def_name is None else genname(py_fn_name)
+
     arity_to_name = {}
     rest_arity_name: str | None = None
     rest_arity_fixed_arity: int | None = None
@@ -2196,7 +2203,7 @@ def __multi_arity_fn_to_py_ast(  # pylint: disable=too-many-locals
     all_arity_def_deps: list[PyASTNode] = []
     for arity in arities:
         arity_name = (
-            f"{py_fn_name}__arity{'_rest' if arity.is_variadic else arity.fixed_arity}"
+            f"{arity_prefix}__arity{'_rest' if arity.is_variadic else arity.fixed_arity}"
         )
         if arity.is_variadic:
             rest_arity_name = arity_name
@@ -2268,6 +2275,7 @@ def __multi_arity_fn_to_py_ast(  # pylint: disable=too-many-locals
         max_fixed_arity=node.max_fixed_arity,
         meta_node=meta_node,
         is_async=node.is_async,
+        dispatch_map_prefix=arity_prefix,
     )
 
     return GeneratedPyAST(
